@@ -263,6 +263,144 @@ def run_cases(run: lib.Run, audit: dict, scale: int = 1):
             run.disagreements.append(case)
 
 
+# ---------------------------------------------------------------------- the translated middleware vs the real one
+
+def canon_trace(tr: dict, guard_marker: str) -> list:
+    """the evaluated trace of the translated `__call__` in the shape `observe` records the real middleware's actions in"""
+    import proto as _p
+    acts = []
+    for e in tr.get("effects", []):
+        if e["e"] == "setItem":
+            ok = e["obj"] == "scope" and e["key"] == "rbacx_guard" and _p.dec(e["value"]) == guard_marker
+            acts.append({"a": "inject"} if ok else {"a": "other-setItem", "obj": e["obj"], "key": e["key"]})
+        elif e["e"] == "send":
+            msg = _p.dec(e["msg"])
+            if e["chan"] != "send" or not isinstance(msg, dict):
+                acts.append({"a": "other", "chan": e["chan"]})
+            elif msg.get("type") == "http.response.start" and list(msg) == ["type", "status", "headers"]:
+                acts.append({"a": "start", "status": msg["status"],
+                             "headers": [[(x or {}).get("__bytes__") if isinstance(x, dict) else {"not-bytes": x} for x in h] for h in msg["headers"]]})
+            elif msg.get("type") == "http.response.body" and list(msg) == ["type", "body"]:
+                b = msg["body"]
+                acts.append({"a": "body", "body": b.get("__bytes__") if isinstance(b, dict) else {"not-bytes": b}})
+            else:
+                acts.append({"a": "other", "type": msg.get("type"), "keys": list(msg)})
+        elif e["e"] == "call":
+            acts.append({"a": "downstream"} if (e["callee"], e["args"]) == ("self.app", ["scope", "receive", "send"]) else {"a": "other-call", **e})
+    if tr.get("ending") != "returned":
+        acts.append({"a": "raise", "cls": (tr.get("ending") or {}).get("raised")})
+    return acts
+
+
+def observe_stub(acfg: dict, builder_out, engine_out):
+    """the REAL middleware driven with a stub engine / builder that behave as the outcomes say: `builder_out` = ("ok", value) | ("raised", cls),
+    `engine_out` = ("ok", Decision) | ("raised", cls); the same recording as `observe`"""
+    import builtins
+    acts: list = []
+
+    class StubGuard:
+        async def evaluate_async(self, subject, action, resource, context):
+            if engine_out[0] == "raised":
+                raise getattr(builtins, engine_out[1])("engine down")
+            return engine_out[1]
+    guard = StubGuard()
+
+    async def app(scope, receive, send):
+        acts.append({"a": "downstream", **({} if (receive is receive_ and send is send_) else {"args": "not the caller's receive/send"})})
+
+    def builder(scope):
+        if scope.get("rbacx_guard") is not guard:
+            acts.append({"a": "builder-called-before-inject"})
+        if builder_out[0] == "raised":
+            raise getattr(builtins, builder_out[1])("builder down")
+        return builder_out[1]
+    mw = RbacxMiddleware(app, guard=guard, mode=acfg["mode"], build_env=builder if acfg["builder"] else None, add_headers=acfg["add_headers"])
+    scope = {"type": acfg["scope_type"]} if acfg["scope_type"] is not None else {}
+
+    async def receive_():
+        return {"type": "http.request"}
+
+    async def send_(msg):
+        if msg["type"] == "http.response.start" and list(msg) == ["type", "status", "headers"]:
+            acts.append({"a": "start", "status": msg["status"],
+                         "headers": [[x.decode("utf-8") if isinstance(x, bytes) else {"not-bytes": repr(x)} for x in h] for h in msg["headers"]]})
+        elif msg["type"] == "http.response.body" and list(msg) == ["type", "body"]:
+            acts.append({"a": "body", "body": msg["body"].decode("utf-8") if isinstance(msg["body"], bytes) else {"not-bytes": repr(msg["body"])}})
+        else:
+            acts.append({"a": "other", "type": msg.get("type"), "keys": list(msg)})
+    try:
+        asyncio.run(mw(scope, receive_, send_))
+    except Exception as e:  # noqa: BLE001
+        acts.append({"a": "raise", "cls": type(e).__name__})
+    return ([{"a": "inject"}] if scope.get("rbacx_guard") is guard else []) + acts
+
+
+def translated_vs_python(run: lib.Run) -> tuple[bool, str]:
+    """the translated `RbacxMiddleware.__call__` (Generated.Src.asgi_call, an action trace evaluated by `lake env lean --run
+    Rbacx/Run/SrcEvalAsgi.lean`) against the REAL middleware driven with raw scope/receive/send and a stub builder / engine that behave as
+    the outcome parameters say: mode × builder present × add_headers × scope type ∈ {http, websocket, lifespan, absent} × builder outcome
+    (returns the 4-tuple / raises / returns None / returns a 3-tuple) × engine outcome (raises / Decisions over allowed × reason ×
+    rule_id × policy_id, also non-str ids); the full action lists are compared.  Validates the readings the obligation C20_translated
+    trusts (effects as a trace in program order, outcomes as inputs, the unpacking as part of the raising point, the callee spliced in,
+    bytes as their text, `json.dumps` of the literal evaluated at translation time) and Model/PyLib.lean."""
+    import dataclasses
+    import json
+    import subprocess
+
+    from rbacx.core.decision import Decision
+    from rbacx.core.model import Action, Context, Resource, Subject
+    marker = "<the guard object>"
+    req4 = (Subject(id="u", roles=["r"]), Action("read"), Resource(type="doc", id="1"), Context(attrs={}))
+
+    def rec(obj):
+        return {f.name: getattr(obj, f.name) for f in dataclasses.fields(obj)}
+    builders = [("ok", req4), ("raised", "RuntimeError"), ("raised", "KeyError"), ("ok", None), ("ok", req4[:3])]
+    engines: list = [("raised", "RuntimeError"), ("raised", "ValueError")]
+    for allowed, reason, rid, pid in itertools.product([True, False], [None, "", "explicit_deny", "x"], [None, "", "r", "ж日"], [None, "", "p"]):
+        engines.append(("ok", Decision(allowed=allowed, effect="permit" if allowed else "deny", reason=reason, rule_id=rid, policy_id=pid)))
+    # ids / reasons that are not strings: `str()` of them goes through the oracle table
+    for reason, rid, pid in [("no_match", 7, 0), ("x", 1.5, ["p", 1]), ("condition_mismatch", True, {"k": "v"}), ("y", False, 2.0)]:
+        engines.append(("ok", Decision(allowed=False, effect="deny", reason=reason, rule_id=rid, policy_id=pid)))
+    engines.append(("ok", Decision(allowed=False, effect="deny", obligations=[{"type": "require_mfa"}], challenge="mfa", reason="obligation_failed",
+                                   rule_id="RULEMARKqz", policy_id="POLMARKqz")))
+    calls, lines = [], []
+    for mode, has_b, add, st in itertools.product(["enforce", "inject", "ENFORCE"], [True, False], [False, True], ["http", "websocket", "lifespan", None]):
+        acfg = {"mode": mode, "builder": has_b, "add_headers": add, "scope_type": st}
+        enforcing = st == "http" and mode == "enforce" and has_b
+        for bo in (builders if enforcing else builders[:2]):
+            for eo in (engines if enforcing and bo[0] == "ok" and bo[1] is req4 else engines[:1] + engines[-1:]):
+                dec = rec(eo[1]) if eo[0] == "ok" else None
+                ext = {"build_env": {"ok": proto.enc([rec(x) for x in bo[1]] if bo[1] is not None else None)} if bo[0] == "ok" else {"raised": bo[1]},
+                       "guard_evaluate_async": {"ok": proto.enc(dec)} if eo[0] == "ok" else {"raised": eo[1]}}
+                scope = {"type": st} if st is not None else {}
+                lines.append(json.dumps({"self": {"guard": marker, "mode": mode, "build_env": "<builder>" if has_b else None, "add_headers": add},
+                                         "args": {"scope": proto.enc(scope)}, "ext": ext,
+                                         "oracle": proto.build_oracle(dec)}))
+                calls.append((acfg, bo, eo))
+    p = subprocess.run(["lake", "env", "lean", "--run", "Rbacx/Run/SrcEvalAsgi.lean"], cwd=lib.LEAN, input="\n".join(lines) + "\n",
+                       capture_output=True, text=True, timeout=1800)
+    outs = [ln for ln in p.stdout.split("\n") if ln]
+    if p.returncode != 0 or len(outs) != len(lines):
+        return False, "SrcEvalAsgi: " + (p.stderr or p.stdout)[-800:]
+    bad = 0
+    for (acfg, bo, eo), ln in zip(calls, outs):
+        got = json.loads(ln)
+        want = observe_stub(acfg, bo, eo)
+        have = canon_trace(got, marker) if "effects" in got else got
+        run.count("translated-asgi")
+        run.count("translated-asgi: " + "+".join(x["a"] for x in want))
+        if have != want:
+            bad += 1
+            if bad == 1:
+                run.disagreements.append({"part": "translated source vs python", "asgi": acfg,
+                                          "builder_outcome": [bo[0], repr(bo[1])], "engine_outcome": [eo[0], repr(eo[1])],
+                                          "impl": {"python": want}, "model": have,
+                                          "what": "the translated RbacxMiddleware.__call__ (Generated.Src.asgi_call) and the real middleware differ "
+                                                  "in their observable actions"})
+    run.evaluations += len(calls)
+    return bad == 0, f"{bad} of {len(calls)} evaluations differ" if bad else f"agree on {len(calls)} evaluations"
+
+
 def gen_choice(r, xs):
     return xs[r.randrange(len(xs))]
 
@@ -273,22 +411,49 @@ def check(run: lib.Run, audit: dict) -> int:
                 "headers, query strings, client/server, a scope that already carries somebody else's guard) and × an engine that raises; two "
                 "overlapping requests on one middleware that differ in roles only; over a "
                 "subsample of the C01 template-pool cases, plus random grammar cases (nested sets with marker ids, obligation-failed permits) in "
-                "enforce mode. non-trivial = an enforced request that was answered with a 403")
+                "enforce mode; the translated source of __call__ / _send_json vs the real middleware with a stub builder / engine: 3 modes × "
+                "builder present × add_headers × 4 scope types × 5 builder outcomes × (2 raising engines + 96 Decisions over allowed × reason × "
+                "rule_id × policy_id + non-str ids). non-trivial = an enforced request that was answered with a 403")
     run.assumptions = ["env builder modelled as: returns the request or raises"]
     if not audit["ok"]:
         raise lib.CheckError(f"Lean build/audit failed at {audit['stage']}: {audit.get('log') or audit.get('forbidden') or audit.get('bad_axioms')}")
-    run_cases(run, audit, scale=run.boost)
+    # the middleware as it is written NOW, translated into Lean as an action trace, is proved equal to the model's asgiCall (per-run obligation)
+    tr = audit["facts"].get("translated_asgi")
+    untranslatable = isinstance(tr, dict) and "extraction_failed" in tr
+    ok_tr, detail_tr = lib.run_obligation("C20_translated")
+    run.obligation("C20_translated: Generated.Src.asgi_call / Src.asgi_send_json (the current source text of RbacxMiddleware.__call__ / _send_json "
+                   "as action traces; build_env and guard.evaluate_async as outcome parameters) = the encoding of the model's asgiCall, effect by "
+                   "effect, for every configuration, scope, builder outcome and engine outcome; the C20 clauses re-derived for the translated source",
+                   ok_tr, "discharged" if ok_tr else (str(tr["extraction_failed"]) if untranslatable else detail_tr))
+    if untranslatable or not isinstance(tr, dict):
+        ok_py, detail_py = True, "skipped: the middleware is not in the translatable subset (see C20_translated)"
+    else:
+        ok_py, detail_py = translated_vs_python(run)
+    run.obligation("translated middleware acts like the real RbacxMiddleware (translator + Model/PyTrace.lean + Model/PyLib.lean vs CPython)", ok_py, detail_py)
+    run_cases(run, audit, scale=run.boost * (1 if ok_tr else 2))
     overlap_probes(run)
     violations = []
-    if run.disagreements and not run.spec_failures:
-        run_cases(run, audit, scale=4)
+    if (run.disagreements or not ok_tr) and not run.spec_failures:
+        run_cases(run, audit, scale=4)        # the model or the translation tie broke: widen the search for a failing input
     if run.spec_failures:
         path = run.write_replay("spec", {"what": "C20 violated on the real middleware", "case": run.spec_failures[0], "count": len(run.spec_failures)})
         violations.append((path, True))
-    elif run.disagreements:
-        path = run.write_replay("correspondence", {"what": "model Rbacx.asgiCall ∘ guardEval and the middleware differ in their observable actions; "
-                                                   "theorems Rbacx.C20.* no longer speak about this code", "first": run.disagreements[0],
-                                                   "count": len(run.disagreements)})
+    elif not ok_tr:
+        path = run.write_replay("obligation", {"what": "per-run obligation Rbacx/Run/C20_translated.lean no longer checks: the translated source of "
+                                               "RbacxMiddleware.__call__ / _send_json is not proved equal to the model's asgiCall, the function "
+                                               "theorems Rbacx.C20.* are about; the widened search found no request on which the real middleware "
+                                               "violates C20", "translation": tr, "lean": detail_tr[-1500:],
+                                               "first_disagreement": run.disagreements[:1], "disagreements": len(run.disagreements)})
+        violations.append((path, False))
+    elif run.disagreements or not ok_py:
+        first = run.disagreements[0] if run.disagreements else {"part": "translated source vs python", "what": detail_py}
+        if first.get("part") == "translated source vs python":
+            what = ("translated source vs python: " + str(first.get("what")) + "; the obligation C20_translated rests on a translation that "
+                    "CPython contradicts (or that could not be evaluated)")
+        else:
+            what = ("model Rbacx.asgiCall ∘ guardEval and the middleware differ in their observable actions; theorems Rbacx.C20.* no longer "
+                    "speak about this code")
+        path = run.write_replay("correspondence", {"what": what, "first": first, "count": len(run.disagreements)})
         violations.append((path, False))
     return run.finish(audit, violations)
 
@@ -297,6 +462,9 @@ def replay(run: lib.Run, audit: dict, path: str) -> int:
     import json
     rp = json.load(open(path))
     c = rp.get("case") or rp.get("first")
+    if not c or "policy" not in c:
+        print("recorded:", json.dumps(c or rp, default=str)[:3000])
+        return 0
     print("observed now:", observe(c["policy"], c["request"], c["cfg"], c["asgi"])[0])
     print("recorded:", c["observed"], "model:", c["model"])
     return 0
